@@ -72,6 +72,74 @@ theorem join_split (sep : UInt8) : ∀ v : Bytes, joinWith sep (splitOnByte sep 
         | nil => simp only [joinWith] at ih ⊢; rw [ih]
         | cons b t' => simp only [joinWith] at ih ⊢; rw [← ih]; simp
 
+/-- No piece of a split contains the separator. -/
+theorem splitOnByte_no_sep (sep : UInt8) : ∀ v : Bytes, ∀ seg ∈ splitOnByte sep v, sep ∉ seg := by
+  intro v
+  induction v with
+  | nil => intro seg hs; simp [splitOnByte] at hs; subst hs; simp
+  | cons c rest ih =>
+    intro seg hs
+    unfold splitOnByte at hs
+    split at hs
+    · simp at hs
+      rcases hs with rfl | hs
+      · simp
+      · exact ih seg hs
+    · rename_i hne
+      split at hs
+      · rename_i hd tl heq
+        simp at hs
+        rcases hs with rfl | hs
+        · have := ih hd (by rw [heq]; simp)
+          simp at hne
+          intro hm; simp at hm
+          rcases hm with hm | hm
+          · exact hne hm.symm
+          · exact this hm
+        · exact ih seg (by rw [heq]; simp [hs])
+      · simp at hs; subst hs
+        simp at hne
+        intro hm; simp at hm; exact hne hm.symm
+
+theorem mapM_unescape_escape_multi : ∀ l : List Bytes, (∀ x ∈ l, (0x2F : UInt8) ∉ x) →
+    (l.map (pathEscape .multi)).mapM (pathUnescape .multi) = some (l.map canonSlash) := by
+  intro l
+  induction l with
+  | nil => intro _; simp
+  | cons x xs ih =>
+    intro h
+    simp only [List.map_cons, List.mapM_cons]
+    rw [unescape_escape_multi x (h x (by simp)), ih (fun y hy => h y (by simp [hy]))]
+    rfl
+
+/-- **A `**` variable**: what `httpSplitVar` writes into the path for a multi-segment variable (the value split
+    at `/`, every piece escaped in multi-segment mode), `routeTargetVar.capture` reads back piece by piece as the
+    same pieces - except that an escaped slash the value spells `%2f` comes back spelled `%2F` (`canonSlash`).
+    For every value. -/
+theorem multi_var_round_trip (value : Bytes) :
+    (splitVar value true).mapM (pathUnescape .multi) = some ((splitOnByte 0x2F value).map canonSlash) := by
+  simp only [splitVar, Bool.not_true, Bool.false_eq_true, if_false]
+  exact mapM_unescape_escape_multi _ (splitOnByte_no_sep 0x2F value)
+
+/-- **A `**` variable is transported exactly** whenever no piece of the value contains the lower-case
+    spelling `%2f` of an escaped slash: split, escape, unescape, join is the identity. -/
+theorem multi_var_round_trip_exact (value : Bytes) (h : ∀ seg ∈ splitOnByte 0x2F value, canonSlash seg = seg) :
+    ((splitVar value true).mapM (pathUnescape .multi)).map (joinWith 0x2F) = some value := by
+  rw [multi_var_round_trip]
+  have : (splitOnByte 0x2F value).map canonSlash = splitOnByte 0x2F value := by
+    conv => rhs; rw [← List.map_id (splitOnByte 0x2F value)]
+    exact List.map_congr_left (fun x hx => by simpa using h x hx)
+  simp [this, join_split]
+
+/-- The hypothesis is met by values with slashes, percent signs and the upper-case spelling. -/
+example : ∀ seg ∈ splitOnByte 0x2F (s "a b/%2F/100%"), canonSlash seg = seg := by decide +kernel
+
+/-- **The exception is real** (negation of the unrestricted round trip, by a witness): the value `%2f`
+    comes back as `%2F`.  The repository's own `TestHTTPEncodePathValues` pins this spelling
+    (`books/%2F%2f …` is written as `books/%2F%2F…`), see `known_findings.json`. -/
+theorem multi_var_lowercase_slash_not_preserved :
+    ((splitVar (s "%2f") true).mapM (pathUnescape .multi)).map (joinWith 0x2F) = some (s "%2F") := by decide +kernel
+
 /-- A text the field's kind does not accept is rejected as `invalid_argument`, never coerced. -/
 theorem setLeaf_rejects (m : Leaves) (fs : List FieldD) (f : FieldD) (text : Bytes)
     (hl : fs.getLast? = some f) (hm : f.message = none) (hv : validText f text = none) :
